@@ -37,8 +37,8 @@ Location = tuple[Union[str, int, "Location"], ...]
 
 # This is use for pretty printing paths with shorthand notation where possible.
 # A property is a word, as the expression tokenizer reads words, that does not start
-# with a digit.
-RE_PROPERTY = re.compile(r"[^\W\d][\w\-]*")
+# with a digit. Like any word, it can end with a question mark.
+RE_PROPERTY = re.compile(r"[^\W\d][\w\-]*\??")
 
 
 def _is_shorthand(segment: str) -> bool:
@@ -71,6 +71,9 @@ class Path(Expression):
             buf = [f"[{root}]"]
         elif isinstance(root, str) and not _is_shorthand(root):
             buf = [f"[{_quote(root)}]"]
+        elif isinstance(root, int):
+            # An index can only start a path in bracket notation, `a[[1]]`.
+            buf = [f"[{root}]"]
         else:
             buf = [str(root)]
 
